@@ -65,10 +65,10 @@ def run(prop, tier, replay=None):
             workers.append(wk)
     vlib.run_pool(workers)
     # one automatic re-run for watchdog / timeouts
-    for wk in workers:
-        if wk.timed_out or wk.rc == 3:
-            chk.notes.append("re-running %s after watchdog" % (wk.tag,))
-            wk.run()
+    again = [wk for wk in workers if wk.timed_out or wk.rc == 3]
+    for wk in again:
+        chk.notes.append("re-running %s after watchdog" % (wk.tag,))
+    vlib.run_pool(again)
     summaries, nviol_other = [], {}
     for wk in workers:
         mode, fl, w = wk.tag
